@@ -148,6 +148,15 @@ MismatchOf(s, o, ti, tj, tu, tr) ==
 Mismatch(s, o) ==
     CHOOSE m \in {MismatchOf(s, o, ObsTree(o.iso), ObsTree(o.jol), ObsTree(o.udf), ObsTree(o.rrv))} : TRUE
 
+\* for outcomes where the statement leaves a choice between two sets of names to remove
+ObsDom(o, ns) == {x.p : x \in Range(IF ns = "iso" THEN o.iso ELSE IF ns = "jol" THEN o.jol ELSE o.udf)}
+Between(acc, alt, o) ==
+    \A ns \in NSs : DOMAIN Tree(alt, ns) \subseteq ObsDom(o, ns) /\ ObsDom(o, ns) \subseteq DOMAIN Tree(acc, ns)
+Restrict(t, ps) == [p \in DOMAIN t \cap ps |-> t[p]]
+Cand(acc, o) == GC([acc EXCEPT !.iso = Restrict(acc.iso, ObsDom(o, "iso")),
+                               !.jol = Restrict(acc.jol, ObsDom(o, "jol")),
+                               !.udf = Restrict(acc.udf, ObsDom(o, "udf"))])
+
 Documented == {"InvalidInput", "InvalidISO", "InternalError"}
 
 (***************************************************************************)
@@ -189,8 +198,10 @@ ApiStep(e) ==
            /\ st' = FromObs(Obs[e.o], st)
       [] r.out = "ok" /\ e.res = "ok"      ->
            \* where the statement leaves a choice (r.alt # r.acc) either outcome is accepted
-           IF r.alt # r.acc /\ Mismatch(r.acc, Obs[e.o]) # {} /\ Mismatch(r.alt, Obs[e.o]) = {}
-           THEN Judge(e, "accept", r.alt, "") ELSE Judge(e, "accept", r.acc, "")
+           \* (acc removes the fewest names, alt the most; anything in between that is otherwise
+           \* consistent is admissible)
+           IF r.alt # r.acc /\ Mismatch(r.acc, Obs[e.o]) # {} /\ Between(r.acc, r.alt, Obs[e.o])
+           THEN Judge(e, "accept", Cand(r.acc, Obs[e.o]), "") ELSE Judge(e, "accept", r.acc, "")
       [] r.out = "ok" /\ e.res # "ok"      -> \* over-refusal: allowed, but nothing may change
            /\ PrintT(<<"OVER", ToJson([tid |-> Traces[tid].id, step |-> l, act |-> e.a.a, res |-> e.res])>>)
            /\ Judge(e, "refused", st, "over_refusal")
